@@ -202,7 +202,7 @@ class RollWorld:
         return 'timestamp_not_increasing' if self.nonmono else 'none'
 
     def violation(self, oracle, signature, message):
-        if self.unknowable and oracle in ('lost_record', 'skipped_record', 'order', 'duplicate'):
+        if self.unknowable and oracle in ('lost_record', 'skipped_record', 'order', 'duplicate', 'torn'):
             self.probe(f'doubtful_after_unknowable_backstep:{oracle}')
             return
         key = (oracle, json.dumps(signature, sort_keys=True))
@@ -840,6 +840,10 @@ class RollWorld:
         cands = [rd.saved if rd.saved is not None else (0, 0)] if graceful else rd.cands
         head_raw = self.fs.peek(HEAD)
         exc = self.construct(rd, head=HEAD)
+        if exc is not None and isinstance(exc, ValueError) and 'newer log file' in str(exc):
+            rd.down = True          # legal refusal (cannot happen while the clock only advances); try again later
+            self.restart_at = self.step + 1
+            return
         if exc is not None:
             self.violation('corrupt_head', {'reader': rd.kind, 'graceful': graceful},
                            f'step {self.step}: restart #{rd.inc} of the reader failed with {type(exc).__name__}: '
